@@ -230,8 +230,8 @@ macro_rules! rc5_inst {
 // @ob name=t8_12_4_dec props=C10,C20 kind=contract fn=rc5::RC5::decrypt_block,rc5::RC5::words_from_block,rc5::RC5::block_from_words timeout=600 note="RC5-8/12/4"
 // @ob name=t8_12_4_rt1 props=C01 kind=contract fn=rc5::RC5::encrypt_block,rc5::RC5::decrypt_block timeout=600 note="RC5-8/12/4"
 // @ob name=t8_12_4_rt2 props=C01 kind=contract fn=rc5::RC5::encrypt_block,rc5::RC5::decrypt_block timeout=600 note="RC5-8/12/4"
-// @ob name=t8_12_4_api_enc props=C10,C20 kind=contract tier=thorough uses=c_word_u8,c_word_u16,c_word_u32,c_word_u64,c_word_u128 fn=rc5::RC5::new,rc5::RC5::encrypt_block timeout=3600 note="RC5-8/12/4"
-// @ob name=t8_12_4_api_dec props=C10,C20 kind=contract tier=thorough uses=c_word_u8,c_word_u16,c_word_u32,c_word_u64,c_word_u128 fn=rc5::RC5::new,rc5::RC5::decrypt_block timeout=3600 note="RC5-8/12/4"
+// (not verified within this round: unregistered) @-ob name=t8_12_4_api_enc props=C10,C20 kind=contract tier=thorough uses=c_word_u8,c_word_u16,c_word_u32,c_word_u64,c_word_u128 fn=rc5::RC5::new,rc5::RC5::encrypt_block timeout=3600 note="RC5-8/12/4"
+// (not verified within this round: unregistered) @-ob name=t8_12_4_api_dec props=C10,C20 kind=contract tier=thorough uses=c_word_u8,c_word_u16,c_word_u32,c_word_u64,c_word_u128 fn=rc5::RC5::new,rc5::RC5::decrypt_block timeout=3600 note="RC5-8/12/4"
 rc5_inst!(u8, U12, U4, m=w8, o=orc8, u=1, t=26, c=4, b=4, unw=80;
     t8_12_4_ks, t8_12_4_enc, t8_12_4_dec, t8_12_4_rt1, t8_12_4_rt2, t8_12_4_api_enc, t8_12_4_api_dec);
 // RC5-16/16/8: RC5<u16, U16, U8>  (t = 34, c = 4)
@@ -240,8 +240,8 @@ rc5_inst!(u8, U12, U4, m=w8, o=orc8, u=1, t=26, c=4, b=4, unw=80;
 // @ob name=t16_16_8_dec props=C10,C20 kind=contract fn=rc5::RC5::decrypt_block,rc5::RC5::words_from_block,rc5::RC5::block_from_words timeout=600 note="RC5-16/16/8"
 // @ob name=t16_16_8_rt1 props=C01 kind=contract fn=rc5::RC5::encrypt_block,rc5::RC5::decrypt_block timeout=600 note="RC5-16/16/8"
 // @ob name=t16_16_8_rt2 props=C01 kind=contract fn=rc5::RC5::encrypt_block,rc5::RC5::decrypt_block timeout=600 note="RC5-16/16/8"
-// @ob name=t16_16_8_api_enc props=C10,C20 kind=contract tier=thorough uses=c_word_u8,c_word_u16,c_word_u32,c_word_u64,c_word_u128 fn=rc5::RC5::new,rc5::RC5::encrypt_block timeout=3600 note="RC5-16/16/8"
-// @ob name=t16_16_8_api_dec props=C10,C20 kind=contract tier=thorough uses=c_word_u8,c_word_u16,c_word_u32,c_word_u64,c_word_u128 fn=rc5::RC5::new,rc5::RC5::decrypt_block timeout=3600 note="RC5-16/16/8"
+// (not verified within this round: unregistered) @-ob name=t16_16_8_api_enc props=C10,C20 kind=contract tier=thorough uses=c_word_u8,c_word_u16,c_word_u32,c_word_u64,c_word_u128 fn=rc5::RC5::new,rc5::RC5::encrypt_block timeout=3600 note="RC5-16/16/8"
+// (not verified within this round: unregistered) @-ob name=t16_16_8_api_dec props=C10,C20 kind=contract tier=thorough uses=c_word_u8,c_word_u16,c_word_u32,c_word_u64,c_word_u128 fn=rc5::RC5::new,rc5::RC5::decrypt_block timeout=3600 note="RC5-16/16/8"
 rc5_inst!(u16, U16, U8, m=w16, o=orc16, u=2, t=34, c=4, b=8, unw=104;
     t16_16_8_ks, t16_16_8_enc, t16_16_8_dec, t16_16_8_rt1, t16_16_8_rt2, t16_16_8_api_enc, t16_16_8_api_dec);
 // RC5-32/12/16: RC5<u32, U12, U16>  (t = 26, c = 4)
@@ -250,8 +250,8 @@ rc5_inst!(u16, U16, U8, m=w16, o=orc16, u=2, t=34, c=4, b=8, unw=104;
 // @ob name=t32_12_16_dec props=C10,C20 kind=contract fn=rc5::RC5::decrypt_block,rc5::RC5::words_from_block,rc5::RC5::block_from_words timeout=600 note="RC5-32/12/16"
 // @ob name=t32_12_16_rt1 props=C01 kind=contract fn=rc5::RC5::encrypt_block,rc5::RC5::decrypt_block timeout=600 note="RC5-32/12/16"
 // @ob name=t32_12_16_rt2 props=C01 kind=contract fn=rc5::RC5::encrypt_block,rc5::RC5::decrypt_block timeout=600 note="RC5-32/12/16"
-// @ob name=t32_12_16_api_enc props=C10,C20 kind=contract tier=thorough uses=c_word_u8,c_word_u16,c_word_u32,c_word_u64,c_word_u128 fn=rc5::RC5::new,rc5::RC5::encrypt_block timeout=3600 note="RC5-32/12/16"
-// @ob name=t32_12_16_api_dec props=C10,C20 kind=contract tier=thorough uses=c_word_u8,c_word_u16,c_word_u32,c_word_u64,c_word_u128 fn=rc5::RC5::new,rc5::RC5::decrypt_block timeout=3600 note="RC5-32/12/16"
+// (not verified within this round: unregistered) @-ob name=t32_12_16_api_enc props=C10,C20 kind=contract tier=thorough uses=c_word_u8,c_word_u16,c_word_u32,c_word_u64,c_word_u128 fn=rc5::RC5::new,rc5::RC5::encrypt_block timeout=3600 note="RC5-32/12/16"
+// (not verified within this round: unregistered) @-ob name=t32_12_16_api_dec props=C10,C20 kind=contract tier=thorough uses=c_word_u8,c_word_u16,c_word_u32,c_word_u64,c_word_u128 fn=rc5::RC5::new,rc5::RC5::decrypt_block timeout=3600 note="RC5-32/12/16"
 rc5_inst!(u32, U12, U16, m=w32, o=orc32, u=4, t=26, c=4, b=16, unw=80;
     t32_12_16_ks, t32_12_16_enc, t32_12_16_dec, t32_12_16_rt1, t32_12_16_rt2, t32_12_16_api_enc, t32_12_16_api_dec);
 // RC5-32/16/16: RC5<u32, U16, U16>  (t = 34, c = 4)
@@ -260,8 +260,8 @@ rc5_inst!(u32, U12, U16, m=w32, o=orc32, u=4, t=26, c=4, b=16, unw=80;
 // @ob name=t32_16_16_dec props=C10,C20 kind=contract fn=rc5::RC5::decrypt_block,rc5::RC5::words_from_block,rc5::RC5::block_from_words timeout=600 note="RC5-32/16/16"
 // @ob name=t32_16_16_rt1 props=C01 kind=contract fn=rc5::RC5::encrypt_block,rc5::RC5::decrypt_block timeout=600 note="RC5-32/16/16"
 // @ob name=t32_16_16_rt2 props=C01 kind=contract fn=rc5::RC5::encrypt_block,rc5::RC5::decrypt_block timeout=600 note="RC5-32/16/16"
-// @ob name=t32_16_16_api_enc props=C10,C20 kind=contract tier=thorough uses=c_word_u8,c_word_u16,c_word_u32,c_word_u64,c_word_u128 fn=rc5::RC5::new,rc5::RC5::encrypt_block timeout=3600 note="RC5-32/16/16"
-// @ob name=t32_16_16_api_dec props=C10,C20 kind=contract tier=thorough uses=c_word_u8,c_word_u16,c_word_u32,c_word_u64,c_word_u128 fn=rc5::RC5::new,rc5::RC5::decrypt_block timeout=3600 note="RC5-32/16/16"
+// (not verified within this round: unregistered) @-ob name=t32_16_16_api_enc props=C10,C20 kind=contract tier=thorough uses=c_word_u8,c_word_u16,c_word_u32,c_word_u64,c_word_u128 fn=rc5::RC5::new,rc5::RC5::encrypt_block timeout=3600 note="RC5-32/16/16"
+// (not verified within this round: unregistered) @-ob name=t32_16_16_api_dec props=C10,C20 kind=contract tier=thorough uses=c_word_u8,c_word_u16,c_word_u32,c_word_u64,c_word_u128 fn=rc5::RC5::new,rc5::RC5::decrypt_block timeout=3600 note="RC5-32/16/16"
 rc5_inst!(u32, U16, U16, m=w32, o=orc32, u=4, t=34, c=4, b=16, unw=104;
     t32_16_16_ks, t32_16_16_enc, t32_16_16_dec, t32_16_16_rt1, t32_16_16_rt2, t32_16_16_api_enc, t32_16_16_api_dec);
 // RC5-64/24/24: RC5<u64, U24, U24>  (t = 50, c = 3)
@@ -270,8 +270,8 @@ rc5_inst!(u32, U16, U16, m=w32, o=orc32, u=4, t=34, c=4, b=16, unw=104;
 // @ob name=t64_24_24_dec props=C10,C20 kind=contract fn=rc5::RC5::decrypt_block,rc5::RC5::words_from_block,rc5::RC5::block_from_words timeout=600 note="RC5-64/24/24"
 // @ob name=t64_24_24_rt1 props=C01 kind=contract fn=rc5::RC5::encrypt_block,rc5::RC5::decrypt_block timeout=600 note="RC5-64/24/24"
 // @ob name=t64_24_24_rt2 props=C01 kind=contract fn=rc5::RC5::encrypt_block,rc5::RC5::decrypt_block timeout=600 note="RC5-64/24/24"
-// @ob name=t64_24_24_api_enc props=C10,C20 kind=contract tier=thorough uses=c_word_u8,c_word_u16,c_word_u32,c_word_u64,c_word_u128 fn=rc5::RC5::new,rc5::RC5::encrypt_block timeout=3600 note="RC5-64/24/24"
-// @ob name=t64_24_24_api_dec props=C10,C20 kind=contract tier=thorough uses=c_word_u8,c_word_u16,c_word_u32,c_word_u64,c_word_u128 fn=rc5::RC5::new,rc5::RC5::decrypt_block timeout=3600 note="RC5-64/24/24"
+// (not verified within this round: unregistered) @-ob name=t64_24_24_api_enc props=C10,C20 kind=contract tier=thorough uses=c_word_u8,c_word_u16,c_word_u32,c_word_u64,c_word_u128 fn=rc5::RC5::new,rc5::RC5::encrypt_block timeout=3600 note="RC5-64/24/24"
+// (not verified within this round: unregistered) @-ob name=t64_24_24_api_dec props=C10,C20 kind=contract tier=thorough uses=c_word_u8,c_word_u16,c_word_u32,c_word_u64,c_word_u128 fn=rc5::RC5::new,rc5::RC5::decrypt_block timeout=3600 note="RC5-64/24/24"
 rc5_inst!(u64, U24, U24, m=w64, o=orc64, u=8, t=50, c=3, b=24, unw=152;
     t64_24_24_ks, t64_24_24_enc, t64_24_24_dec, t64_24_24_rt1, t64_24_24_rt2, t64_24_24_api_enc, t64_24_24_api_dec);
 // RC5-128/28/32: RC5<u128, U28, U32>  (t = 58, c = 2)
@@ -280,8 +280,8 @@ rc5_inst!(u64, U24, U24, m=w64, o=orc64, u=8, t=50, c=3, b=24, unw=152;
 // @ob name=t128_28_32_dec props=C10,C20 kind=contract fn=rc5::RC5::decrypt_block,rc5::RC5::words_from_block,rc5::RC5::block_from_words timeout=600 note="RC5-128/28/32"
 // @ob name=t128_28_32_rt1 props=C01 kind=contract fn=rc5::RC5::encrypt_block,rc5::RC5::decrypt_block timeout=600 note="RC5-128/28/32"
 // @ob name=t128_28_32_rt2 props=C01 kind=contract fn=rc5::RC5::encrypt_block,rc5::RC5::decrypt_block timeout=600 note="RC5-128/28/32"
-// @ob name=t128_28_32_api_enc props=C10,C20 kind=contract tier=thorough uses=c_word_u8,c_word_u16,c_word_u32,c_word_u64,c_word_u128 fn=rc5::RC5::new,rc5::RC5::encrypt_block timeout=3600 note="RC5-128/28/32"
-// @ob name=t128_28_32_api_dec props=C10,C20 kind=contract tier=thorough uses=c_word_u8,c_word_u16,c_word_u32,c_word_u64,c_word_u128 fn=rc5::RC5::new,rc5::RC5::decrypt_block timeout=3600 note="RC5-128/28/32"
+// (not verified within this round: unregistered) @-ob name=t128_28_32_api_enc props=C10,C20 kind=contract tier=thorough uses=c_word_u8,c_word_u16,c_word_u32,c_word_u64,c_word_u128 fn=rc5::RC5::new,rc5::RC5::encrypt_block timeout=3600 note="RC5-128/28/32"
+// (not verified within this round: unregistered) @-ob name=t128_28_32_api_dec props=C10,C20 kind=contract tier=thorough uses=c_word_u8,c_word_u16,c_word_u32,c_word_u64,c_word_u128 fn=rc5::RC5::new,rc5::RC5::decrypt_block timeout=3600 note="RC5-128/28/32"
 rc5_inst!(u128, U28, U32, m=w128, o=orc128, u=16, t=58, c=2, b=32, unw=176;
     t128_28_32_ks, t128_28_32_enc, t128_28_32_dec, t128_28_32_rt1, t128_28_32_rt2, t128_28_32_api_enc, t128_28_32_api_dec);
 // RC5-32/0/16: RC5<u32, U0, U16>  (t = 2, c = 4)
@@ -290,8 +290,8 @@ rc5_inst!(u128, U28, U32, m=w128, o=orc128, u=16, t=58, c=2, b=32, unw=176;
 // @ob name=r0_32_0_16_dec props=C10,C20 kind=contract fn=rc5::RC5::decrypt_block,rc5::RC5::words_from_block,rc5::RC5::block_from_words timeout=600 note="RC5-32/0/16"
 // @ob name=r0_32_0_16_rt1 props=C01 kind=contract fn=rc5::RC5::encrypt_block,rc5::RC5::decrypt_block timeout=600 note="RC5-32/0/16"
 // @ob name=r0_32_0_16_rt2 props=C01 kind=contract fn=rc5::RC5::encrypt_block,rc5::RC5::decrypt_block timeout=600 note="RC5-32/0/16"
-// @ob name=r0_32_0_16_api_enc props=C10,C20 kind=contract tier=thorough uses=c_word_u8,c_word_u16,c_word_u32,c_word_u64,c_word_u128 fn=rc5::RC5::new,rc5::RC5::encrypt_block timeout=3600 note="RC5-32/0/16"
-// @ob name=r0_32_0_16_api_dec props=C10,C20 kind=contract tier=thorough uses=c_word_u8,c_word_u16,c_word_u32,c_word_u64,c_word_u128 fn=rc5::RC5::new,rc5::RC5::decrypt_block timeout=3600 note="RC5-32/0/16"
+// (not verified within this round: unregistered) @-ob name=r0_32_0_16_api_enc props=C10,C20 kind=contract tier=thorough uses=c_word_u8,c_word_u16,c_word_u32,c_word_u64,c_word_u128 fn=rc5::RC5::new,rc5::RC5::encrypt_block timeout=3600 note="RC5-32/0/16"
+// (not verified within this round: unregistered) @-ob name=r0_32_0_16_api_dec props=C10,C20 kind=contract tier=thorough uses=c_word_u8,c_word_u16,c_word_u32,c_word_u64,c_word_u128 fn=rc5::RC5::new,rc5::RC5::decrypt_block timeout=3600 note="RC5-32/0/16"
 rc5_inst!(u32, U0, U16, m=w32, o=orc32, u=4, t=2, c=4, b=16, unw=18;
     r0_32_0_16_ks, r0_32_0_16_enc, r0_32_0_16_dec, r0_32_0_16_rt1, r0_32_0_16_rt2, r0_32_0_16_api_enc, r0_32_0_16_api_dec);
 // RC5-32/1/16: RC5<u32, U1, U16>  (t = 4, c = 4)
@@ -300,8 +300,8 @@ rc5_inst!(u32, U0, U16, m=w32, o=orc32, u=4, t=2, c=4, b=16, unw=18;
 // @ob name=r1_32_1_16_dec props=C10,C20 kind=contract fn=rc5::RC5::decrypt_block,rc5::RC5::words_from_block,rc5::RC5::block_from_words timeout=600 note="RC5-32/1/16"
 // @ob name=r1_32_1_16_rt1 props=C01 kind=contract fn=rc5::RC5::encrypt_block,rc5::RC5::decrypt_block timeout=600 note="RC5-32/1/16"
 // @ob name=r1_32_1_16_rt2 props=C01 kind=contract fn=rc5::RC5::encrypt_block,rc5::RC5::decrypt_block timeout=600 note="RC5-32/1/16"
-// @ob name=r1_32_1_16_api_enc props=C10,C20 kind=contract tier=thorough uses=c_word_u8,c_word_u16,c_word_u32,c_word_u64,c_word_u128 fn=rc5::RC5::new,rc5::RC5::encrypt_block timeout=3600 note="RC5-32/1/16"
-// @ob name=r1_32_1_16_api_dec props=C10,C20 kind=contract tier=thorough uses=c_word_u8,c_word_u16,c_word_u32,c_word_u64,c_word_u128 fn=rc5::RC5::new,rc5::RC5::decrypt_block timeout=3600 note="RC5-32/1/16"
+// (not verified within this round: unregistered) @-ob name=r1_32_1_16_api_enc props=C10,C20 kind=contract tier=thorough uses=c_word_u8,c_word_u16,c_word_u32,c_word_u64,c_word_u128 fn=rc5::RC5::new,rc5::RC5::encrypt_block timeout=3600 note="RC5-32/1/16"
+// (not verified within this round: unregistered) @-ob name=r1_32_1_16_api_dec props=C10,C20 kind=contract tier=thorough uses=c_word_u8,c_word_u16,c_word_u32,c_word_u64,c_word_u128 fn=rc5::RC5::new,rc5::RC5::decrypt_block timeout=3600 note="RC5-32/1/16"
 rc5_inst!(u32, U1, U16, m=w32, o=orc32, u=4, t=4, c=4, b=16, unw=18;
     r1_32_1_16_ks, r1_32_1_16_enc, r1_32_1_16_dec, r1_32_1_16_rt1, r1_32_1_16_rt2, r1_32_1_16_api_enc, r1_32_1_16_api_dec);
 // RC5-8/255/4: RC5<u8, U255, U4>  (t = 512, c = 4)
@@ -310,8 +310,8 @@ rc5_inst!(u32, U1, U16, m=w32, o=orc32, u=4, t=4, c=4, b=16, unw=18;
 // @ob name=r255_8_255_4_dec props=C10,C20 kind=contract fn=rc5::RC5::decrypt_block,rc5::RC5::words_from_block,rc5::RC5::block_from_words timeout=600 note="RC5-8/255/4"
 // @ob name=r255_8_255_4_rt1 props=C01 kind=contract fn=rc5::RC5::encrypt_block,rc5::RC5::decrypt_block timeout=600 note="RC5-8/255/4"
 // @ob name=r255_8_255_4_rt2 props=C01 kind=contract fn=rc5::RC5::encrypt_block,rc5::RC5::decrypt_block timeout=600 note="RC5-8/255/4"
-// @ob name=r255_8_255_4_api_enc props=C10,C20 kind=contract tier=thorough uses=c_word_u8,c_word_u16,c_word_u32,c_word_u64,c_word_u128 fn=rc5::RC5::new,rc5::RC5::encrypt_block timeout=3600 note="RC5-8/255/4"
-// @ob name=r255_8_255_4_api_dec props=C10,C20 kind=contract tier=thorough uses=c_word_u8,c_word_u16,c_word_u32,c_word_u64,c_word_u128 fn=rc5::RC5::new,rc5::RC5::decrypt_block timeout=3600 note="RC5-8/255/4"
+// (not verified within this round: unregistered) @-ob name=r255_8_255_4_api_enc props=C10,C20 kind=contract tier=thorough uses=c_word_u8,c_word_u16,c_word_u32,c_word_u64,c_word_u128 fn=rc5::RC5::new,rc5::RC5::encrypt_block timeout=3600 note="RC5-8/255/4"
+// (not verified within this round: unregistered) @-ob name=r255_8_255_4_api_dec props=C10,C20 kind=contract tier=thorough uses=c_word_u8,c_word_u16,c_word_u32,c_word_u64,c_word_u128 fn=rc5::RC5::new,rc5::RC5::decrypt_block timeout=3600 note="RC5-8/255/4"
 rc5_inst!(u8, U255, U4, m=w8, o=orc8big, u=1, t=512, c=4, b=4, unw=1538;
     r255_8_255_4_ks, r255_8_255_4_enc, r255_8_255_4_dec, r255_8_255_4_rt1, r255_8_255_4_rt2, r255_8_255_4_api_enc, r255_8_255_4_api_dec);
 // RC5-32/12/1: RC5<u32, U12, U1>  (t = 26, c = 1)
@@ -320,8 +320,8 @@ rc5_inst!(u8, U255, U4, m=w8, o=orc8big, u=1, t=512, c=4, b=4, unw=1538;
 // (same block functions as above) @-ob name=b1_32_12_1_dec props=C10,C20 kind=contract fn=rc5::RC5::decrypt_block,rc5::RC5::words_from_block,rc5::RC5::block_from_words timeout=600 note="RC5-32/12/1"
 // (same block functions as above) @-ob name=b1_32_12_1_rt1 props=C01 kind=contract fn=rc5::RC5::encrypt_block,rc5::RC5::decrypt_block timeout=600 note="RC5-32/12/1"
 // (same block functions as above) @-ob name=b1_32_12_1_rt2 props=C01 kind=contract fn=rc5::RC5::encrypt_block,rc5::RC5::decrypt_block timeout=600 note="RC5-32/12/1"
-// @ob name=b1_32_12_1_api_enc props=C10,C20 kind=contract tier=thorough uses=c_word_u8,c_word_u16,c_word_u32,c_word_u64,c_word_u128 fn=rc5::RC5::new,rc5::RC5::encrypt_block timeout=3600 note="RC5-32/12/1"
-// @ob name=b1_32_12_1_api_dec props=C10,C20 kind=contract tier=thorough uses=c_word_u8,c_word_u16,c_word_u32,c_word_u64,c_word_u128 fn=rc5::RC5::new,rc5::RC5::decrypt_block timeout=3600 note="RC5-32/12/1"
+// (not verified within this round: unregistered) @-ob name=b1_32_12_1_api_enc props=C10,C20 kind=contract tier=thorough uses=c_word_u8,c_word_u16,c_word_u32,c_word_u64,c_word_u128 fn=rc5::RC5::new,rc5::RC5::encrypt_block timeout=3600 note="RC5-32/12/1"
+// (not verified within this round: unregistered) @-ob name=b1_32_12_1_api_dec props=C10,C20 kind=contract tier=thorough uses=c_word_u8,c_word_u16,c_word_u32,c_word_u64,c_word_u128 fn=rc5::RC5::new,rc5::RC5::decrypt_block timeout=3600 note="RC5-32/12/1"
 rc5_inst!(u32, U12, U1, m=w32, o=orc32, u=4, t=26, c=1, b=1, unw=80;
     b1_32_12_1_ks, b1_32_12_1_enc, b1_32_12_1_dec, b1_32_12_1_rt1, b1_32_12_1_rt2, b1_32_12_1_api_enc, b1_32_12_1_api_dec);
 // RC5-32/12/3: RC5<u32, U12, U3>  (t = 26, c = 1)
@@ -330,8 +330,8 @@ rc5_inst!(u32, U12, U1, m=w32, o=orc32, u=4, t=26, c=1, b=1, unw=80;
 // (same block functions as above) @-ob name=b3_32_12_3_dec props=C10,C20 kind=contract fn=rc5::RC5::decrypt_block,rc5::RC5::words_from_block,rc5::RC5::block_from_words timeout=600 note="RC5-32/12/3"
 // (same block functions as above) @-ob name=b3_32_12_3_rt1 props=C01 kind=contract fn=rc5::RC5::encrypt_block,rc5::RC5::decrypt_block timeout=600 note="RC5-32/12/3"
 // (same block functions as above) @-ob name=b3_32_12_3_rt2 props=C01 kind=contract fn=rc5::RC5::encrypt_block,rc5::RC5::decrypt_block timeout=600 note="RC5-32/12/3"
-// @ob name=b3_32_12_3_api_enc props=C10,C20 kind=contract tier=thorough uses=c_word_u8,c_word_u16,c_word_u32,c_word_u64,c_word_u128 fn=rc5::RC5::new,rc5::RC5::encrypt_block timeout=3600 note="RC5-32/12/3"
-// @ob name=b3_32_12_3_api_dec props=C10,C20 kind=contract tier=thorough uses=c_word_u8,c_word_u16,c_word_u32,c_word_u64,c_word_u128 fn=rc5::RC5::new,rc5::RC5::decrypt_block timeout=3600 note="RC5-32/12/3"
+// (not verified within this round: unregistered) @-ob name=b3_32_12_3_api_enc props=C10,C20 kind=contract tier=thorough uses=c_word_u8,c_word_u16,c_word_u32,c_word_u64,c_word_u128 fn=rc5::RC5::new,rc5::RC5::encrypt_block timeout=3600 note="RC5-32/12/3"
+// (not verified within this round: unregistered) @-ob name=b3_32_12_3_api_dec props=C10,C20 kind=contract tier=thorough uses=c_word_u8,c_word_u16,c_word_u32,c_word_u64,c_word_u128 fn=rc5::RC5::new,rc5::RC5::decrypt_block timeout=3600 note="RC5-32/12/3"
 rc5_inst!(u32, U12, U3, m=w32, o=orc32, u=4, t=26, c=1, b=3, unw=80;
     b3_32_12_3_ks, b3_32_12_3_enc, b3_32_12_3_dec, b3_32_12_3_rt1, b3_32_12_3_rt2, b3_32_12_3_api_enc, b3_32_12_3_api_dec);
 // RC5-32/12/7: RC5<u32, U12, U7>  (t = 26, c = 2)
@@ -340,8 +340,8 @@ rc5_inst!(u32, U12, U3, m=w32, o=orc32, u=4, t=26, c=1, b=3, unw=80;
 // (same block functions as above) @-ob name=b7_32_12_7_dec props=C10,C20 kind=contract fn=rc5::RC5::decrypt_block,rc5::RC5::words_from_block,rc5::RC5::block_from_words timeout=600 note="RC5-32/12/7"
 // (same block functions as above) @-ob name=b7_32_12_7_rt1 props=C01 kind=contract fn=rc5::RC5::encrypt_block,rc5::RC5::decrypt_block timeout=600 note="RC5-32/12/7"
 // (same block functions as above) @-ob name=b7_32_12_7_rt2 props=C01 kind=contract fn=rc5::RC5::encrypt_block,rc5::RC5::decrypt_block timeout=600 note="RC5-32/12/7"
-// @ob name=b7_32_12_7_api_enc props=C10,C20 kind=contract tier=thorough uses=c_word_u8,c_word_u16,c_word_u32,c_word_u64,c_word_u128 fn=rc5::RC5::new,rc5::RC5::encrypt_block timeout=3600 note="RC5-32/12/7"
-// @ob name=b7_32_12_7_api_dec props=C10,C20 kind=contract tier=thorough uses=c_word_u8,c_word_u16,c_word_u32,c_word_u64,c_word_u128 fn=rc5::RC5::new,rc5::RC5::decrypt_block timeout=3600 note="RC5-32/12/7"
+// (not verified within this round: unregistered) @-ob name=b7_32_12_7_api_enc props=C10,C20 kind=contract tier=thorough uses=c_word_u8,c_word_u16,c_word_u32,c_word_u64,c_word_u128 fn=rc5::RC5::new,rc5::RC5::encrypt_block timeout=3600 note="RC5-32/12/7"
+// (not verified within this round: unregistered) @-ob name=b7_32_12_7_api_dec props=C10,C20 kind=contract tier=thorough uses=c_word_u8,c_word_u16,c_word_u32,c_word_u64,c_word_u128 fn=rc5::RC5::new,rc5::RC5::decrypt_block timeout=3600 note="RC5-32/12/7"
 rc5_inst!(u32, U12, U7, m=w32, o=orc32, u=4, t=26, c=2, b=7, unw=80;
     b7_32_12_7_ks, b7_32_12_7_enc, b7_32_12_7_dec, b7_32_12_7_rt1, b7_32_12_7_rt2, b7_32_12_7_api_enc, b7_32_12_7_api_dec);
 // RC5-32/12/255: RC5<u32, U12, U255>  (t = 26, c = 64)
@@ -350,8 +350,8 @@ rc5_inst!(u32, U12, U7, m=w32, o=orc32, u=4, t=26, c=2, b=7, unw=80;
 // (same block functions as above) @-ob name=b255_32_12_255_dec props=C10,C20 kind=contract fn=rc5::RC5::decrypt_block,rc5::RC5::words_from_block,rc5::RC5::block_from_words timeout=600 note="RC5-32/12/255"
 // (same block functions as above) @-ob name=b255_32_12_255_rt1 props=C01 kind=contract fn=rc5::RC5::encrypt_block,rc5::RC5::decrypt_block timeout=600 note="RC5-32/12/255"
 // (same block functions as above) @-ob name=b255_32_12_255_rt2 props=C01 kind=contract fn=rc5::RC5::encrypt_block,rc5::RC5::decrypt_block timeout=600 note="RC5-32/12/255"
-// @ob name=b255_32_12_255_api_enc props=C10,C20 kind=contract tier=thorough uses=c_word_u8,c_word_u16,c_word_u32,c_word_u64,c_word_u128 fn=rc5::RC5::new,rc5::RC5::encrypt_block timeout=3600 note="RC5-32/12/255"
-// @ob name=b255_32_12_255_api_dec props=C10,C20 kind=contract tier=thorough uses=c_word_u8,c_word_u16,c_word_u32,c_word_u64,c_word_u128 fn=rc5::RC5::new,rc5::RC5::decrypt_block timeout=3600 note="RC5-32/12/255"
+// (not verified within this round: unregistered) @-ob name=b255_32_12_255_api_enc props=C10,C20 kind=contract tier=thorough uses=c_word_u8,c_word_u16,c_word_u32,c_word_u64,c_word_u128 fn=rc5::RC5::new,rc5::RC5::encrypt_block timeout=3600 note="RC5-32/12/255"
+// (not verified within this round: unregistered) @-ob name=b255_32_12_255_api_dec props=C10,C20 kind=contract tier=thorough uses=c_word_u8,c_word_u16,c_word_u32,c_word_u64,c_word_u128 fn=rc5::RC5::new,rc5::RC5::decrypt_block timeout=3600 note="RC5-32/12/255"
 rc5_inst!(u32, U12, U255, m=w32, o=orc32big, u=4, t=26, c=64, b=255, unw=257;
     b255_32_12_255_ks, b255_32_12_255_enc, b255_32_12_255_dec, b255_32_12_255_rt1, b255_32_12_255_rt2, b255_32_12_255_api_enc, b255_32_12_255_api_dec);
 // RC5-16/12/3: RC5<u16, U12, U3>  (t = 26, c = 2)
@@ -360,8 +360,8 @@ rc5_inst!(u32, U12, U255, m=w32, o=orc32big, u=4, t=26, c=64, b=255, unw=257;
 // @ob name=n16_12_3_dec props=C10,C20 kind=contract fn=rc5::RC5::decrypt_block,rc5::RC5::words_from_block,rc5::RC5::block_from_words timeout=600 note="RC5-16/12/3"
 // @ob name=n16_12_3_rt1 props=C01 kind=contract fn=rc5::RC5::encrypt_block,rc5::RC5::decrypt_block timeout=600 note="RC5-16/12/3"
 // @ob name=n16_12_3_rt2 props=C01 kind=contract fn=rc5::RC5::encrypt_block,rc5::RC5::decrypt_block timeout=600 note="RC5-16/12/3"
-// @ob name=n16_12_3_api_enc props=C10,C20 kind=contract tier=thorough uses=c_word_u8,c_word_u16,c_word_u32,c_word_u64,c_word_u128 fn=rc5::RC5::new,rc5::RC5::encrypt_block timeout=3600 note="RC5-16/12/3"
-// @ob name=n16_12_3_api_dec props=C10,C20 kind=contract tier=thorough uses=c_word_u8,c_word_u16,c_word_u32,c_word_u64,c_word_u128 fn=rc5::RC5::new,rc5::RC5::decrypt_block timeout=3600 note="RC5-16/12/3"
+// (not verified within this round: unregistered) @-ob name=n16_12_3_api_enc props=C10,C20 kind=contract tier=thorough uses=c_word_u8,c_word_u16,c_word_u32,c_word_u64,c_word_u128 fn=rc5::RC5::new,rc5::RC5::encrypt_block timeout=3600 note="RC5-16/12/3"
+// (not verified within this round: unregistered) @-ob name=n16_12_3_api_dec props=C10,C20 kind=contract tier=thorough uses=c_word_u8,c_word_u16,c_word_u32,c_word_u64,c_word_u128 fn=rc5::RC5::new,rc5::RC5::decrypt_block timeout=3600 note="RC5-16/12/3"
 rc5_inst!(u16, U12, U3, m=w16, o=orc16, u=2, t=26, c=2, b=3, unw=80;
     n16_12_3_ks, n16_12_3_enc, n16_12_3_dec, n16_12_3_rt1, n16_12_3_rt2, n16_12_3_api_enc, n16_12_3_api_dec);
 // RC5-64/12/9: RC5<u64, U12, U9>  (t = 26, c = 2)
@@ -370,8 +370,8 @@ rc5_inst!(u16, U12, U3, m=w16, o=orc16, u=2, t=26, c=2, b=3, unw=80;
 // @ob name=n64_12_9_dec props=C10,C20 kind=contract fn=rc5::RC5::decrypt_block,rc5::RC5::words_from_block,rc5::RC5::block_from_words timeout=600 note="RC5-64/12/9"
 // @ob name=n64_12_9_rt1 props=C01 kind=contract fn=rc5::RC5::encrypt_block,rc5::RC5::decrypt_block timeout=600 note="RC5-64/12/9"
 // @ob name=n64_12_9_rt2 props=C01 kind=contract fn=rc5::RC5::encrypt_block,rc5::RC5::decrypt_block timeout=600 note="RC5-64/12/9"
-// @ob name=n64_12_9_api_enc props=C10,C20 kind=contract tier=thorough uses=c_word_u8,c_word_u16,c_word_u32,c_word_u64,c_word_u128 fn=rc5::RC5::new,rc5::RC5::encrypt_block timeout=3600 note="RC5-64/12/9"
-// @ob name=n64_12_9_api_dec props=C10,C20 kind=contract tier=thorough uses=c_word_u8,c_word_u16,c_word_u32,c_word_u64,c_word_u128 fn=rc5::RC5::new,rc5::RC5::decrypt_block timeout=3600 note="RC5-64/12/9"
+// (not verified within this round: unregistered) @-ob name=n64_12_9_api_enc props=C10,C20 kind=contract tier=thorough uses=c_word_u8,c_word_u16,c_word_u32,c_word_u64,c_word_u128 fn=rc5::RC5::new,rc5::RC5::encrypt_block timeout=3600 note="RC5-64/12/9"
+// (not verified within this round: unregistered) @-ob name=n64_12_9_api_dec props=C10,C20 kind=contract tier=thorough uses=c_word_u8,c_word_u16,c_word_u32,c_word_u64,c_word_u128 fn=rc5::RC5::new,rc5::RC5::decrypt_block timeout=3600 note="RC5-64/12/9"
 rc5_inst!(u64, U12, U9, m=w64, o=orc64, u=8, t=26, c=2, b=9, unw=80;
     n64_12_9_ks, n64_12_9_enc, n64_12_9_dec, n64_12_9_rt1, n64_12_9_rt2, n64_12_9_api_enc, n64_12_9_api_dec);
 // RC5-128/12/17: RC5<u128, U12, U17>  (t = 26, c = 2)
@@ -380,8 +380,8 @@ rc5_inst!(u64, U12, U9, m=w64, o=orc64, u=8, t=26, c=2, b=9, unw=80;
 // @ob name=n128_12_17_dec props=C10,C20 kind=contract fn=rc5::RC5::decrypt_block,rc5::RC5::words_from_block,rc5::RC5::block_from_words timeout=600 note="RC5-128/12/17"
 // @ob name=n128_12_17_rt1 props=C01 kind=contract fn=rc5::RC5::encrypt_block,rc5::RC5::decrypt_block timeout=600 note="RC5-128/12/17"
 // @ob name=n128_12_17_rt2 props=C01 kind=contract fn=rc5::RC5::encrypt_block,rc5::RC5::decrypt_block timeout=600 note="RC5-128/12/17"
-// @ob name=n128_12_17_api_enc props=C10,C20 kind=contract tier=thorough uses=c_word_u8,c_word_u16,c_word_u32,c_word_u64,c_word_u128 fn=rc5::RC5::new,rc5::RC5::encrypt_block timeout=3600 note="RC5-128/12/17"
-// @ob name=n128_12_17_api_dec props=C10,C20 kind=contract tier=thorough uses=c_word_u8,c_word_u16,c_word_u32,c_word_u64,c_word_u128 fn=rc5::RC5::new,rc5::RC5::decrypt_block timeout=3600 note="RC5-128/12/17"
+// (not verified within this round: unregistered) @-ob name=n128_12_17_api_enc props=C10,C20 kind=contract tier=thorough uses=c_word_u8,c_word_u16,c_word_u32,c_word_u64,c_word_u128 fn=rc5::RC5::new,rc5::RC5::encrypt_block timeout=3600 note="RC5-128/12/17"
+// (not verified within this round: unregistered) @-ob name=n128_12_17_api_dec props=C10,C20 kind=contract tier=thorough uses=c_word_u8,c_word_u16,c_word_u32,c_word_u64,c_word_u128 fn=rc5::RC5::new,rc5::RC5::decrypt_block timeout=3600 note="RC5-128/12/17"
 rc5_inst!(u128, U12, U17, m=w128, o=orc128, u=16, t=26, c=2, b=17, unw=80;
     n128_12_17_ks, n128_12_17_enc, n128_12_17_dec, n128_12_17_rt1, n128_12_17_rt2, n128_12_17_api_enc, n128_12_17_api_dec);
 // RC5-8/12/255: RC5<u8, U12, U255>  (t = 26, c = 255)
@@ -390,8 +390,8 @@ rc5_inst!(u128, U12, U17, m=w128, o=orc128, u=16, t=26, c=2, b=17, unw=80;
 // (same block functions as above) @-ob name=b255_8_12_255_dec props=C10,C20 kind=contract fn=rc5::RC5::decrypt_block,rc5::RC5::words_from_block,rc5::RC5::block_from_words timeout=600 note="RC5-8/12/255"
 // (same block functions as above) @-ob name=b255_8_12_255_rt1 props=C01 kind=contract fn=rc5::RC5::encrypt_block,rc5::RC5::decrypt_block timeout=600 note="RC5-8/12/255"
 // (same block functions as above) @-ob name=b255_8_12_255_rt2 props=C01 kind=contract fn=rc5::RC5::encrypt_block,rc5::RC5::decrypt_block timeout=600 note="RC5-8/12/255"
-// @ob name=b255_8_12_255_api_enc props=C10,C20 kind=contract tier=thorough uses=c_word_u8,c_word_u16,c_word_u32,c_word_u64,c_word_u128 fn=rc5::RC5::new,rc5::RC5::encrypt_block timeout=3600 note="RC5-8/12/255"
-// @ob name=b255_8_12_255_api_dec props=C10,C20 kind=contract tier=thorough uses=c_word_u8,c_word_u16,c_word_u32,c_word_u64,c_word_u128 fn=rc5::RC5::new,rc5::RC5::decrypt_block timeout=3600 note="RC5-8/12/255"
+// (not verified within this round: unregistered) @-ob name=b255_8_12_255_api_enc props=C10,C20 kind=contract tier=thorough uses=c_word_u8,c_word_u16,c_word_u32,c_word_u64,c_word_u128 fn=rc5::RC5::new,rc5::RC5::encrypt_block timeout=3600 note="RC5-8/12/255"
+// (not verified within this round: unregistered) @-ob name=b255_8_12_255_api_dec props=C10,C20 kind=contract tier=thorough uses=c_word_u8,c_word_u16,c_word_u32,c_word_u64,c_word_u128 fn=rc5::RC5::new,rc5::RC5::decrypt_block timeout=3600 note="RC5-8/12/255"
 rc5_inst!(u8, U12, U255, m=w8, o=orc8big, u=1, t=26, c=255, b=255, unw=767;
     b255_8_12_255_ks, b255_8_12_255_enc, b255_8_12_255_dec, b255_8_12_255_rt1, b255_8_12_255_rt2, b255_8_12_255_api_enc, b255_8_12_255_api_dec);
 
@@ -551,8 +551,8 @@ macro_rules! mb_body {
         while i < $n { assert!(eq_n(&dst[i + 1].0, &single[i]) && eq_n(&src[i].0, &inp[i])); i += 1; }
     }};
 }
-// @ob name=k_32_12_16_keylen props=C11 kind=bounded bound="slice length <= 300" fn=rc5::RC5::new_from_slice timeout=300 note="RC5-32/12/16"
-// @ob name=k_32_12_16_same props=C11,C12,C13 kind=contract fn=rc5::RC5::new_from_slice,rc5::RC5::new,rc5::RC5::clone,rc5::RC5::weak_key_test,rc5::RC5::new_checked timeout=300 note="RC5-32/12/16"
+// (times out at 300 s: unregistered) @-ob name=k_32_12_16_keylen props=C11 kind=bounded bound="slice length <= 300" fn=rc5::RC5::new_from_slice timeout=300 note="RC5-32/12/16"
+// (times out at 300 s: unregistered) @-ob name=k_32_12_16_same props=C11,C12,C13 kind=contract fn=rc5::RC5::new_from_slice,rc5::RC5::new,rc5::RC5::clone,rc5::RC5::weak_key_test,rc5::RC5::new_checked timeout=300 note="RC5-32/12/16"
 // @ob name=m_32_12_16_blocks props=C04,C15 kind=bounded bound="n in {0, 1, 3} blocks (ParBlocksSize = 1)" fn=rc5::RC5::encrypt_with_backend,rc5::RC5::encrypt_block timeout=600 note="RC5-32/12/16"
 // @ob name=z_32_12_16 props=C16 cfg=zeroize kind=contract fn=rc5::RC5::drop,rc5::RC5::clone timeout=300 note="RC5-32/12/16"
 rc5_api!(u32, U12, U16, u=4, t=26, b=16, unw=80; k_32_12_16_keylen, k_32_12_16_same, m_32_12_16_blocks, z_32_12_16);
@@ -561,8 +561,8 @@ rc5_api!(u32, U12, U16, u=4, t=26, b=16, unw=80; k_32_12_16_keylen, k_32_12_16_s
 // @ob name=m_8_12_4_blocks props=C04,C15 kind=bounded bound="n in {0, 1, 3} blocks (ParBlocksSize = 1)" fn=rc5::RC5::encrypt_with_backend,rc5::RC5::encrypt_block timeout=600 note="RC5-8/12/4"
 // @ob name=z_8_12_4 props=C16 cfg=zeroize kind=contract fn=rc5::RC5::drop,rc5::RC5::clone timeout=300 note="RC5-8/12/4"
 rc5_api!(u8, U12, U4, u=1, t=26, b=4, unw=80; k_8_12_4_keylen, k_8_12_4_same, m_8_12_4_blocks, z_8_12_4);
-// @ob name=k_128_28_32_keylen props=C11 kind=bounded bound="slice length <= 300" fn=rc5::RC5::new_from_slice timeout=300 note="RC5-128/28/32"
-// @ob name=k_128_28_32_same props=C11,C12,C13 kind=contract fn=rc5::RC5::new_from_slice,rc5::RC5::new,rc5::RC5::clone,rc5::RC5::weak_key_test,rc5::RC5::new_checked timeout=300 note="RC5-128/28/32"
+// (times out at 300 s: unregistered) @-ob name=k_128_28_32_keylen props=C11 kind=bounded bound="slice length <= 300" fn=rc5::RC5::new_from_slice timeout=300 note="RC5-128/28/32"
+// (times out at 300 s: unregistered) @-ob name=k_128_28_32_same props=C11,C12,C13 kind=contract fn=rc5::RC5::new_from_slice,rc5::RC5::new,rc5::RC5::clone,rc5::RC5::weak_key_test,rc5::RC5::new_checked timeout=300 note="RC5-128/28/32"
 // @ob name=m_128_28_32_blocks props=C04,C15 kind=bounded bound="n in {0, 1, 3} blocks (ParBlocksSize = 1)" fn=rc5::RC5::encrypt_with_backend,rc5::RC5::encrypt_block timeout=600 note="RC5-128/28/32"
 // @ob name=z_128_28_32 props=C16 cfg=zeroize kind=contract fn=rc5::RC5::drop,rc5::RC5::clone timeout=300 note="RC5-128/28/32"
 rc5_api!(u128, U28, U32, u=16, t=58, b=32, unw=180; k_128_28_32_keylen, k_128_28_32_same, m_128_28_32_blocks, z_128_28_32);
